@@ -29,7 +29,10 @@ class Monitor(object):
             unserved = [ind.id_number for ind in nd.all_individuals if ind.id_number not in held]
             if unserved:
                 self.hub.flags.add("waiting_seen")
-                idle = [s.id_number for s in nd.servers if not s.busy and not s.cust]
+                # occupied = holding a customer that is present at this node (a server still 'busy' with a customer
+                # that has left serves nobody)
+                here = set(id(i) for i in nd.all_individuals)
+                idle = [s.id_number for s in nd.servers if not (s.cust and id(s.cust) in here)]
                 if idle:
                     self.violate("server_idle_while_customer_waits",
                                  {"node": nd.id_number, "now": Q.current_time, "idle_servers": idle, "unserved": unserved,
@@ -79,6 +82,11 @@ def focused(tier):
                           c={"sched": {"numbers": [1, 0, 2], "ends": [1.5, 2.5, 4.0], "preempt": opt}}, features=["schedule"]))
         out.append(two_class_single("sched %s prio" % opt, fam, K=2, T=10.0, prios=(1, 0),
                                     c={"sched": {"numbers": [1, 0, 2], "ends": [1.5, 2.5, 4.0], "preempt": opt}}, features=["schedule", "priorities"]))
+    for nums, ends in (([1, 1], [2.0, 4.0]), ([2, 1], [1.5, 4.0])):
+        out.append(single("sched %s + server priority function" % nums, fam, K=K, T=10.0, srv=[3.0, 1.0],
+                          c={"sched": {"numbers": nums, "ends": ends, "preempt": False}}, nodekw={"server_priority": "last"}, features=["schedule", "srvprio"]))
+    out.append(two_class_single("renege ties, waiting listed before in-service", fam, c=1, K=2, prios=(1, 0), arrA=[1.0], arrB=[3.0, 2.0], srvA=[6.0], srvB=[1.0],
+                                ckwA={"renege": [[5.0]]}, ckwB={"renege": [[3.0, 4.0]]}, T=14.0, features=["reneging", "priorities", "ties"]))
     out.append(single("renege c=1", fam, c=1, K=K, classkw={"renege": [[1.0, 2.5]]}, features=["reneging"]))
     out.append(single("renege c=2", fam, c=2, K=K, srv=[4.0, 1.0], classkw={"renege": [[1.0, 2.5]]}, features=["reneging"]))
     out.append(cfg("cct prio", fam, [node(c=1)],
